@@ -285,7 +285,7 @@ class LoadMixin(AbstractLoaderGenerator, BaseLoadHook):
             if has_optionals and field in optional_fields:
                 field_assigns.append(string)
             else:
-                req_field_to_assign[f'__{field}'] = string
+                req_field_to_assign[_field_var(field)] = string
 
             num_fields += 1
 
@@ -904,6 +904,17 @@ def setup_default_loader(cls=LoadMixin):
     cls.register_load_hook(timedelta, cls.load_to_timedelta)
 
 
+def _field_var(name):
+    """
+    Name of the local variable that holds the parsed value of a (required)
+    field in a generated function.
+
+    No other name in the generated code has the form `__<..>__v`, so a field
+    named e.g. `as_datetime` can't clash with the helper `__as_datetime`.
+    """
+    return f'__{name}__v'
+
+
 def check_and_raise_missing_fields(
         _locals, o, cls,
         fields: tuple[Field, ...] | None):
@@ -923,7 +934,7 @@ def check_and_raise_missing_fields(
             field.name = name
 
         missing_fields = [f for f in cls.__annotations__
-                          if f'__{f}' not in _locals
+                          if _field_var(f) not in _locals
                           and f not in field_to_default]
 
         missing_keys = None
@@ -931,7 +942,7 @@ def check_and_raise_missing_fields(
     else:
         missing_fields = [f.name for f in fields
                           if f.init
-                          and f'__{f.name}' not in _locals
+                          and _field_var(f.name) not in _locals
                           and (f.default is MISSING
                                and f.default_factory is MISSING)]
 
@@ -1122,7 +1133,7 @@ def load_func_for_dataclass(
                 _val_is_found = f'{val} is not MISSING'
                 for i, f in enumerate(cls_init_fields):
                     name = f.name
-                    var = f'__{name}'
+                    var = _field_var(name)
                     has_default = name in field_to_default
                     val_is_found = _val_is_found
 
@@ -1248,7 +1259,7 @@ def load_func_for_dataclass(
                 with fn_gen.if_('len(o) != i'):
                     fn_gen.add_line(f'init_kwargs[{catch_all_field_stripped!r}] = {catch_all_def}')
             else:
-                var = f'__{catch_all_field_stripped}'
+                var = _field_var(catch_all_field_stripped)
                 fn_gen.add_line(f'{var} = {{}} if len(o) == i else {catch_all_def}')
                 vars_for_fields.insert(catch_all_idx, var)
 
